@@ -236,3 +236,114 @@ class SplitBlocks:
         out["end-bit-on-exactly-the-last-block"] = ok_end
         out["other-header-fields-preserved"] = ok_rest
         return out
+
+
+# =============================================================================================== reassembly (bounded shape)
+from secsgem.secsi.protocol import SecsIProtocol  # noqa: E402
+
+
+def blk():
+    return Obj(SecsIBlock, _header=hdr_obj(), _data=Bytes(max_len=244))
+
+
+def msg(nblocks):
+    return Obj(SecsIMessage, _blocks=FixedList(*[blk() for _ in range(nblocks)]))
+
+
+SHAPES = {"empty": [], "one-open-1-block": [1], "one-open-2-blocks": [2], "two-open": [1, 1]}
+
+
+@contract("secsgem.common.protocol:Protocol._add_message_block", "C16")
+class AddMessageBlock:
+    """O94 (bounded shape: 0..2 open transactions holding 1..2 blocks; system bytes, flags and contents symbolic, open
+    transactions under arbitrary - also equal to the new block's - system bytes): a block joins exactly the open message with
+    its system bytes, at the end (arrival order), or opens a new one; the message is returned exactly when the block carries
+    the end bit and is then forgotten; messages of other system bytes are not touched - interleaving does not matter."""
+
+    cases = [(name, {"shape": name}) for name in SHAPES]
+
+    def inputs(shape):
+        entries = [(Int(0, 2 ** 32 - 1), msg(n)) for n in SHAPES[shape]]
+        return {"self": Obj(SecsIProtocol, _incomplete_messages=SymDict(*entries)), "block": blk()}
+
+    def requires(self, block):
+        keys = list(self._incomplete_messages.keys())
+        distinct = True
+        for a in range(len(keys)):
+            for b in range(a + 1, len(keys)):
+                distinct = distinct and keys[a] != keys[b]
+        open_not_ended = True
+        for m in self._incomplete_messages.values():
+            for b in m._blocks:
+                open_not_ended = open_not_ended and not b._header._last_block
+        return distinct and open_not_ended and 0 <= block._header._system < 2 ** 32
+
+    def raises():
+        return {}
+
+    def ensures(self, block, old, result):
+        sysb = block._header._system
+        last = block._header._last_block
+        old_items = list(old.self._incomplete_messages.items())
+        new_items = list(self._incomplete_messages.items())
+        hit = None
+        for k0, m0 in old_items:
+            if k0 == sysb:
+                hit = m0
+        out = {}
+        if hit is None:
+            out["returned-iff-end-bit"] = (result is not None) == last
+            if result is not None:
+                out["single-block-message"] = (len(result._blocks) == 1 and len(result._blocks[0]._data) == len(block._data)
+                                               and forall(0, len(block._data), lambda t: result._blocks[0]._data[t] == block._data[t])
+                                               and result._blocks[0]._header._system == sysb and result._blocks[0]._header._last_block)
+                out["open-messages-untouched"] = len(new_items) == len(old_items)
+            else:
+                out["opened"] = len(new_items) == len(old_items) + 1 and sysb in self._incomplete_messages
+        else:
+            n0 = len(hit._blocks)
+            out["returned-iff-end-bit"] = (result is not None) == last
+            if result is not None:
+                out["blocks-in-arrival-order"] = len(result._blocks) == n0 + 1 and result._blocks[n0] is block
+                out["forgotten"] = len(new_items) == len(old_items) - 1 and sysb not in self._incomplete_messages
+            else:
+                out["appended"] = len(new_items) == len(old_items) and len(self._incomplete_messages[sysb]._blocks) == n0 + 1 \
+                    and self._incomplete_messages[sysb]._blocks[n0] is block
+        return out
+
+
+@contract("secsgem.secsi.message:SecsIMessage.data", "C16")
+class MessageData:
+    """the body of a message is the concatenation of its blocks' data in block order (1..3 blocks, contents symbolic)"""
+
+    cases = [(f"n{n}", {"n": n}) for n in (1, 2, 3)]
+
+    def inputs(n):
+        return {"self": msg(n)}
+
+    def raises():
+        return {}
+
+    def ensures(self, result):
+        ok = True
+        off = 0
+        for b in self._blocks:
+            ok = ok and seq_eq_at(result, off, b._data)
+            off = off + len(b._data)
+        return ok and len(result) == off
+
+
+@contract("secsgem.secsi.message:SecsIMessage.complete", "C16")
+class MessageComplete:
+    """a message is complete exactly when its last block carries the end bit"""
+
+    cases = [(f"n{n}", {"n": n}) for n in (1, 2, 3)]
+
+    def inputs(n):
+        return {"self": msg(n)}
+
+    def raises():
+        return {}
+
+    def ensures(self, result, case):
+        return result == self._blocks[case["n"] - 1]._header._last_block
